@@ -5,7 +5,8 @@
 //!   bind tcp4|tcp6|local|ipc        -> b#k=ok:<kind>:<port>0:rt=<ok|bad> | b=err:<class>
 //!   binddup K                        bind again to exactly the endpoint bind #K returned
 //!   bindbad TEXT                     bind to a malformed / unusable endpoint text
-//!   unbind K | unbindx               -> u=ok | u=err:<class>
+//!   unbind K | unbindx | unbindalias K HOST  -> u=ok | u=err:<class> | u=hang   (unbindalias: HOST:port-of-#K, never bound)
+//!   bindsame K HOST                  bind HOST with the port number of bind #K
 //!   conn K [id=HEX]                  raw compatible peer connects to bind #K and handshakes -> c#j=ok|refused|hserr:<why>
 //!   connout                          the socket connects out to a raw listener we own -> o#j=ok|err
 //!   staller K off=N mode=stop|close|garbage   raw client that misbehaves after N handshake bytes -> s#j=started
@@ -163,8 +164,16 @@ async fn scenario(head: Vec<String>, ops: Vec<Vec<String>>) -> Vec<String> {
         }
         let t: Vec<&str> = op.iter().map(|s| s.as_str()).collect();
         match t[0] {
-            "bind" | "binddup" | "bindbad" => {
+            "bind" | "binddup" | "bindbad" | "bindsame" => {
                 let text = match t[0] {
+                    // another host, the port number of bind #K
+                    "bindsame" => {
+                        let port = match &bound[t[1].parse::<usize>().unwrap()] {
+                            Endpoint::Tcp(_, p) => *p,
+                            _ => 1,
+                        };
+                        format!("tcp://{}:{}", t[2], port)
+                    }
                     "bind" => match t[1] {
                         "tcp4" => "tcp://127.0.0.1:0".to_string(),
                         "tcp6" => "tcp://[::1]:0".to_string(),
@@ -196,16 +205,24 @@ async fn scenario(head: Vec<String>, ops: Vec<Vec<String>>) -> Vec<String> {
                     Err(e) => out.push(format!("b=err:{}", zeromq::__verif::error_class(&e))),
                 }
             }
-            "unbind" | "unbindx" => {
+            "unbind" | "unbindx" | "unbindalias" => {
                 let ep = if t[0] == "unbind" {
                     bound[t[1].parse::<usize>().unwrap()].clone()
+                } else if t[0] == "unbindalias" {
+                    // an endpoint that was never bound: another host, the port number of bind #K
+                    let port = match &bound[t[1].parse::<usize>().unwrap()] {
+                        Endpoint::Tcp(_, p) => *p,
+                        _ => 1,
+                    };
+                    format!("tcp://{}:{}", t[2], port).parse::<Endpoint>().unwrap()
                 } else {
                     "tcp://127.0.0.1:1".parse::<Endpoint>().unwrap()
                 };
                 let s = sock.as_mut().expect("socket gone");
-                match sock_unbind(s, ep).await {
-                    Ok(()) => out.push("u=ok".to_string()),
-                    Err(e) => out.push(format!("u=err:{}", zeromq::__verif::error_class(&e))),
+                match tokio::time::timeout(Duration::from_secs(5), sock_unbind(s, ep)).await {
+                    Ok(Ok(())) => out.push("u=ok".to_string()),
+                    Ok(Err(e)) => out.push(format!("u=err:{}", zeromq::__verif::error_class(&e))),
+                    Err(_) => out.push("u=hang".to_string()),
                 }
             }
             "binds" => {
@@ -347,8 +364,10 @@ async fn scenario(head: Vec<String>, ops: Vec<Vec<String>>) -> Vec<String> {
             }
             "close" => {
                 let s = sock.take().expect("socket gone");
-                let n = sock_close(s).await;
-                out.push(format!("close={}", n));
+                match tokio::time::timeout(Duration::from_secs(5), sock_close(s)).await {
+                    Ok(n) => out.push(format!("close={}", n)),
+                    Err(_) => out.push("close=hang".to_string()),
+                }
             }
             "drop" => {
                 sock = None;
